@@ -451,4 +451,46 @@ Section Search.
     - intros q Hq. apply N. apply in_or_app. right. exact Hq.
     - intros q Hq. right. apply N. apply in_or_app. left. exact Hq.
   Qed.
+  (* ---- equals is reflexive on trees without float literals (a NaN literal
+     is equal to nothing), so an item that is present is found ---- *)
+  Lemma str_eqb_refl s : str_eqb s s = true.
+  Proof. induction s as [|c r IH]; cbn [str_eqb]; [reflexivity|]. rewrite Z.eqb_refl, IH. reflexivity. Qed.
+  Lemma list_eqb_refl {A} (e : A -> A -> bool) (l : list A) :
+    (forall x, e x x = true) -> list_eqb e l l = true.
+  Proof. intro H. induction l as [|c r IH]; cbn [list_eqb]; [reflexivity|]. rewrite H, IH. reflexivity. Qed.
+  Lemma lit_equals_refl v : lit_float_free v = true -> lit_equals v v = true.
+  Proof.
+    destruct v as [b|z|c d|f|v|v|v]; cbn [lit_float_free lit_equals]; intro H.
+    - apply Bool.eqb_reflx.
+    - apply Z.eqb_refl.
+    - rewrite !Z.eqb_refl. reflexivity.
+    - discriminate.
+    - apply list_eqb_refl. apply Bool.eqb_reflx.
+    - apply list_eqb_refl. apply Z.eqb_refl.
+    - destruct v; [reflexivity|discriminate].
+  Qed.
+  Lemma float_free_list_unfold l : float_free (IList l) = float_free_list l.
+  Proof. reflexivity. Qed.
+
+  Lemma equals_refl t : float_free t = true -> equals t t = true.
+  Proof.
+    induction t as [l IH|n|v|n] using item_ind'; intro H.
+    - rewrite equals_list_unfold. rewrite float_free_list_unfold in H.
+      induction IH as [|c r Hc _ IHr]; [reflexivity|].
+      cbn [float_free_list] in H. apply andb_prop in H as [H1 H2].
+      rewrite equals_list_cons, (Hc H1), (IHr H2). reflexivity.
+    - apply str_eqb_refl.
+    - apply lit_equals_refl. exact H.
+    - apply str_eqb_refl.
+  Qed.
+
+  Theorem position_finds_present t pat :
+    float_free pat = true -> In pat (points t) ->
+    exists k, contains t pat 0 = Some k /\ 0 <= k < size t /\ equals (nth_point t k) pat = true.
+  Proof.
+    intros F I. destruct (contains t pat 0) as [k|] eqn:C.
+    - exists k. destruct (position_extract Debug t pat k C) as [B [_ [V _]]]. repeat split; try lia; exact V.
+    - exfalso. pose proof (proj1 (position_none_iff_absent t pat) C pat I) as N.
+      rewrite (equals_refl pat F) in N. discriminate.
+  Qed.
 End Search.
